@@ -42,7 +42,7 @@ def rand_pipe(rng, keep_only):
 
 class C14(Spec):
     pid = "C14"
-    groups = ["vansi", "vpub"]
+    groups = ["vansi", "vpub", "vnet"]
     no_compare_ops = ("item",)
     title = "Styling applies to exactly the intended characters and never leaks"
     oracle_filter = {"style_compose", "neutral", "layout_attrs_ok", "wf_out", "equals_model"}
@@ -51,7 +51,9 @@ class C14(Spec):
             "layout operations (wrap, dumbwrap, pad, indent, snip); the terminal state machine (Term.v, extracted) is run on the "
             "implementation's output: per-rune attribute sets must equal sterm_expect, the state must be neutral at every line "
             "end and at the end, and wrap/dumbwrap/pad pipelines must keep the attributes of every visible rune. Also the layout "
-            "ops of C13 on styled text (oracles layout_attrs_ok / neutral). non-trivial = the term contains at least one Styled node "
+            "ops of C13 on styled text (oracles layout_attrs_ok / neutral). NETWORK: items opened on the loopback simulator whose performer / "
+            "target / outbox / author is behind a server that puts SGR and other control sequences into the bytes error messages quote: the "
+            "texts shown stay neutral and well-formed. non-trivial = the term contains at least one Styled node "
             "and the text a visible character.")
     assumptions = ["a parameter string is one opaque attribute (the style layer never emits combined or partial resets)",
                    "default colours (harness runs with no config file)"]
@@ -85,6 +87,23 @@ class C14(Spec):
         return [Batch("c14", self.gen(rng, 1500 if tier == "quick" else 60000), correspondence="style.* / ansi layout == Style.v / Ansi.v"),
                 Batch("c14-items", items, env={"VERIF_CASE_TIMEOUT": "20"},
                       correspondence="Post/Actor String, Preview == Pub model; every Tangible's texts are neutral")]
+
+    def extra_checks(self, scratch, binary, rng, tier, report):
+        """items opened over the network whose performer / target / outbox / author is behind a server that puts SGR and other
+        control sequences into the bytes servitor's error messages quote: the texts shown must stay attribute-neutral"""
+        import netgen
+        import runner
+        base = netgen.pick_port_base(rng)
+        cases = [netgen.hostile_error_world(rng, base).case() for _ in range(60 if tier == "quick" else 3000)]
+        b = Batch("c14-net", cases, config="[network]\ntimeout_seconds = 2\n", env={"VERIF_SIM_PORT_BASE": str(base), "VERIF_CASE_TIMEOUT": "30"},
+                  timeout=900, correspondence="texts of items whose parts failed to load with hostile error bytes are neutral and well-formed")
+        b.parallel = False
+        saved = (self.oracle_filter, self.no_compare_ops)
+        self.oracle_filter, self.no_compare_ops = {"item_text_neutral", "item_text_wf"}, self.no_compare_ops + ("net",)
+        try:
+            runner.run_batches(self, scratch, binary, [b], report)
+        finally:
+            self.oracle_filter, self.no_compare_ops = saved
 
     def search_batches(self, rng, tier):
         return [Batch("c14-search", self.gen(rng, 8000))]
